@@ -301,6 +301,49 @@ def _render_struct(m, s, indent, out):
         _render_field(f, indent + 2, out)
 
 
+def in_lib(m, t):
+    """Is type t defined in the imported file (lib.emb) of a module that is split over two files?"""
+    return bool(getattr(m, "split", False)) and t.name not in getattr(m, "mains", []) and not getattr(t, "parent", None)
+
+
+def render_files(m):
+    """{file name: text}: one file, or -- for a split module -- m.emb importing lib.emb, which holds
+    every helper type (enums, bits types, leaf structures); m.emb refers to them as lib.Name."""
+    if not getattr(m, "split", False):
+        return {"m.emb": render_module(m)}
+    lib_types = [t for t in list(m.enums) + list(m.structs) if in_lib(m, t)]
+    lib_names = {t.name for t in lib_types}
+    # lib.emb: unqualified names
+    set_qualification(m)
+    out = []
+    if m.default_byte_order:
+        out.append(f'[$default byte_order: "{m.default_byte_order}"]')
+    out.append(f'[(cpp) namespace: "{m.namespace}lib"]')
+    for e in m.enums:
+        if e.name in lib_names:
+            _render_enum(e, 0, out)
+    for s in m.structs:
+        if s.name in lib_names:
+            _render_struct(m, s, 0, out)
+    lib_text = "\n".join(out) + "\n"
+    # m.emb: helper types are lib.Name
+    set_qualification(m)
+    for n in lib_names:
+        _QUAL[n] = "lib." + n
+    out = ['import "lib.emb" as lib']
+    if m.default_byte_order:
+        out.append(f'[$default byte_order: "{m.default_byte_order}"]')
+    out.append(f'[(cpp) namespace: "{m.namespace}"]')
+    for e in m.enums:
+        if e.name not in lib_names and not getattr(e, "parent", None):
+            _render_enum(e, 0, out)
+    for s in m.structs:
+        if s.name not in lib_names and not getattr(s, "parent", None):
+            _render_struct(m, s, 0, out)
+    set_qualification(m)
+    return {"m.emb": "\n".join(out) + "\n", "lib.emb": lib_text}
+
+
 def render_module(m):
     set_qualification(m)
     out = []
@@ -317,5 +360,6 @@ def render_module(m):
 
 
 def cpp_type_name(m, t):
-    """C++ name of an enum or struct type relative to the module's namespace (Outer::Inner)."""
-    return qual_of(m, t).replace(".", "::")
+    """Fully qualified C++ name of an enum or struct type (sim::Outer::Inner, simlib::Kind)."""
+    ns = m.namespace + ("lib" if in_lib(m, t) else "")
+    return ns + "::" + qual_of(m, t).replace(".", "::")
